@@ -11,8 +11,31 @@ EXTRA = {
  'mix':  'O:Apex(C:P(P1, O:Po(X, C:Y(Y1,Y2))), R*:Q(Q1,Q2,Q3), L)',
 }
 
+REJECTED = []   # (case name, replay path, descriptions): legal structures the real templates refuse to compile
+
+def lib_rejects(e):
+    """a compile error whose primary location is inside the library's own headers (a static_assert of the metadata
+    arithmetic firing on a legal structure), as opposed to an error in the generated wrapper code (machinery fault)"""
+    fe = getattr(e, 'first_error', '')
+    return fe.startswith(os.path.realpath(REPO) + '/') or fe.startswith(REPO + '/')
+
+def try_fixture(fam, o, tag=''):
+    try:
+        return fixture('C17', fam, o, tag)
+    except Broken as e:
+        if not lib_rejects(e): raise
+        os.makedirs(REPLAYS, exist_ok=True)
+        nm = 'c17.%s%s.compile' % (fam, ('_' + tag) if tag else '')
+        dst = os.path.join(REPLAYS, 'C17_%s%s_compile.cpp' % (fam, ('_' + tag) if tag else ''))
+        shutil.copyfile(e.cpp, dst)
+        rp = dst[:-4] + '.json'
+        json.dump(dict(property='C17', case=nm, kind='compile', source=dst, build=e.kw, first_error=e.first_error,
+                       structure=FAMILY[fam][0]), open(rp, 'w'), indent=1)
+        REJECTED.append((nm, rp, ['the real templates reject the legal structure %s at compile time: %s' % (FAMILY[fam][0], e.first_error[:300])]))
+        return None
+
 def cases(tier):
-    L = []
+    L = []; del REJECTED[:]
     fams = list(FAMILY) if tier == 'thorough' else ['f5', 'f10', 'foroot', 'fpeer', 'f3w', 'f12', 'fo8']
     extra = list(EXTRA) if tier == 'thorough' else ['w7', 'oo', 'hl', 'o9']
     for name in extra: FAMILY.setdefault('x_' + name, (EXTRA[name], 'extra shape for the numbering check'))
@@ -20,15 +43,23 @@ def cases(tier):
         util = any(k in FAMILY[fam][0] for k in ('U:', 'N:', 'U*:', 'N*:'))
         feats = ['SERIALIZATION', 'PLANS']
         o = dict(features=feats, callbacks=['life'], act=[], kinds=0)
-        fx = fixture('C17', fam, o)
+        if fam.startswith('x_'):
+            # the same shape without plans (the per-region plan bit arrays carry compile-time index guards that may mask
+            # a wrong region index behind a compile error): the tables are then compared by the solver
+            fn = try_fixture(fam, dict(o, features=['SERIALIZATION']), 'np')
+            if fn: L.append(fsm_case('C17', fn, 'meta', ['P_C17', 'ENTRY=9', 'FROM_CONSTRUCTION_NOSTEP'], timeout=300, witness=True))
+        fx = try_fixture(fam, o)
+        if not fx: continue
         if fam in ('f5', 'f10', 'foroot'): L.append(tv_case('C17', fx))
         L.append(fsm_case('C17', fx, 'meta', ['P_C17', 'ENTRY=9', 'FROM_CONSTRUCTION_NOSTEP'], timeout=300, witness=True))
     return L
 
 def run(tier, seed):
     shutil.rmtree(os.path.join(BUILD, 'C17'), ignore_errors=True)
-    return execute('C17', tier, seed, cases(tier), [
+    cs = cases(tier)
+    return execute('C17', tier, seed, cs, pre_violations=list(REJECTED), assumptions=[
         'quantifier "every machine structure": template metaprograms have no run-time input to make symbolic, so structures are ENUMERATED (the listed family incl. widths 3-9, nested and headless regions, orthogonal roots); per structure the state/region/fork index is a solver variable',
         'oracle: an independent computation of the depth-first numbering, counts, serialization bits, default task capacity, parent forks/prongs, bit-unit offsets, region heads and sizes from the structure term (vlib/genfx.py Tables) vs (i) the constexpr results of the real templates (stateId<>, regionId<>, counts) and (ii) the run-time tables the real deepRegister() builds in the constructed instance',
         'identifiers depend on the structure only: genfx names the states arbitrarily; the tables are computed from the shape alone',
+        'a legal structure of the family that the real templates refuse to compile (error located in the library headers, e.g. a static_assert of the index arithmetic) is reported as a violation with the translation unit as replay; a compile error located in the generated wrapper code is a machinery fault (BROKEN)',
         'outside the claim: structures not in the family; identifier-type limits (more than 255 regions etc.)'])
